@@ -1,5 +1,6 @@
 import Driver.Util
 import Driver.Misc.Bins
+import Driver.Misc.MemBal
 /-! package `Misc` (see CONVENTIONS.md): register components in `step`.
 `cfg` lines this package cares about may be matched here too (they must answer "ok");
 every package sees every `cfg` line. -/
@@ -8,11 +9,15 @@ open Driver
 
 structure St where
   debug : Bool := true
+  membal : MemBal.DState := none
 
 /-- `none` = not a component of this package. -/
 def step (st : St) (toks : List String) : Option (St × String) :=
   match toks with
   | "bins" :: args => some (st, Bins.run st.debug args)
+  | "membal" :: args =>
+    let (m, o) := MemBal.run st.debug st.membal args
+    some ({ st with membal := m }, o)
   | _ => none
 
 /-- `cfg` lines are broadcast to every package. -/
